@@ -78,7 +78,7 @@ func (core *JApiCore) collectPathVariables(d *directive.Directive) *jerr.JApiErr
 
 	s, err := newPathVariablesSchema(d.BodyCoords.Read(), core.UserTypesData(), core.rules)
 	if err != nil {
-		return d.KeywordError(err.Error())
+		return jschemaToJAPIError(err, d)
 	}
 
 	path, err := d.Path()
